@@ -703,6 +703,119 @@ def check_C15(tier, rng, rep):
     return rep.finish(tier, rule="TLC -simulate behaviours of SplitClean (split calls with 1-3 pairs incl. parameters 0, 1, repeated and - in float realisations - nearly repeated / near-0 / near-1 values, clean calls; 4 calls) replayed on curves of degree 1-3: segment count, each piece retraces orig_i(lo + s(hi-lo)) at 5 values of s (exact for rational polygons, 1e-6 curved), junction identity, zero-length pieces, area, orientation, clean idempotent, split;clean == original", exhaustive=False)
 
 
+
+def _const_export(root, module, cfg_text, out_name, define=""):
+    """run a constant-level module whose ASSUMEs are the theorems and whose last ASSUME exports JSON"""
+    tlc.prepare()
+    open(os.path.join(tlc.BSPEC, root + ".tla"), "w").write("---- MODULE %s ----\nEXTENDS %s\n%s====\n" % (root, module, define))
+    out = os.path.join(tlc.BUILD, out_name)
+    if os.path.exists(out):
+        os.remove(out)
+    res = tlc.run(root, None, cfg_text=cfg_text, workers=1, timeout=600, env={"VERIF_OUT": out}, tag=root)
+    if res.ok and not os.path.exists(out):
+        res.ok = False
+    # constant-level modules have no states: report the number of exported rows instead
+    return res, out
+
+
+def check_C16(tier, rng, rep):
+    """primitive factories build the documented shapes or raise ValueError"""
+    from . import queries
+    quick = tier == "quick"
+    res, path = _const_export("MCPR", "Prims", "", "prims.json")
+    rep.add_tlc("Prims (ThmMonotone, ThmContract as ASSUMEs; table export)", res)
+    if not res.ok:
+        return rep.finish(tier, rule="-")
+    ncase = len(json.load(open(path))["cases"])
+    rep.cov["states"] += ncase
+    rep.cov["transitions"] += ncase
+    idx = list(range(ncase))
+    if quick:
+        idx = runner.sample(idx, 400, rng)
+    jobs = [(path, idx[k:k + 20], {}) for k in range(0, len(idx), 20)]
+    res = runner.pool_map(queries.prims_case, jobs, chunksize=1)
+    rep.add_results("prims", res)
+    rep.cov["factory_calls"] = sum(r.get("stats", {}).get("calls", 0) for r in res)
+    rep.level = "exploration"
+    rep.assumptions.append("the trigonometric closed forms (regular polygon vertices and area, circle band and area bounds, pi) are harness oracles attached to the specification's cases; the specification contributes the case enumeration, the ValueError table and the abstract contract (DESIGN.md section 10)")
+    return rep.finish(tier, rule="rows of the decision table exported by TLC from Prims.tla (factory x size class x centre class x count class), each instantiated with 1-3 concrete values per class: outcome, kind, orientation, segment count/degree, vertices (exact when the table says so), closed-form area, circle band, centre/far-point membership; polygon() vertex order and orientation; circle area monotone to pi r^2", exhaustive=not quick)
+
+
+def check_C17(tier, rng, rep):
+    """Jordan-curve constructors agree with each other and reject open chains"""
+    from . import queries
+    quick = tier == "quick"
+    res, path = _const_export("MCCV", "Curves", "CONSTANTS\n  NPts = 4\n  MaxLen = 4\n", "curves.json")
+    rep.add_tlc("Curves (ThmVertices, ThmDetermined, ThmReverse as ASSUMEs; chain export)", res)
+    if not res.ok:
+        return rep.finish(tier, rule="-")
+    chains = json.load(open(path))["chains"]
+    rep.cov["states"] += len(chains)
+    rep.cov["transitions"] += len(chains)
+    closed = [k for k, c in enumerate(chains) if c["closed"]]
+    opened = [k for k, c in enumerate(chains) if not c["closed"]]
+    pick = closed + (runner.sample(opened, 900, rng) if quick else opened)
+    jobs = []
+    for n, (nt, deg) in enumerate((("int", 1), ("frac", 1), ("float", 1), ("float", 2), ("frac", 2))):
+        sub = pick if not quick else pick[n::5] + closed
+        for k in range(0, len(sub), 60):
+            jobs.append((path, sub[k:k + 60], {"numtype": nt, "deg": deg}))
+    res = runner.pool_map(queries.chains_case, jobs, chunksize=1)
+    rep.add_results("chains", res)
+    rep.cov["constructions"] = sum(r.get("stats", {}).get("constructions", 0) for r in res)
+    one = lambda st, r: r not in (0, st.u.full)
+    rj = region_jobs(U2 + U3, lambda k: [(POLY + CURVED + ["quad-frac"])[k % 7]], rng, per_universe=8 if quick else None, pred=one)
+    res = runner.pool_map(queries.ctors_case, rj)
+    rep.add_results("ctors", res)
+    return rep.finish(tier, rule="(a) every chain of <= 4 segments over 4 points enumerated by TLC (all 120 closed ones, a seeded sample of the 22 488 open ones in the quick tier) through from_segments and from_ctrlpoints with int/Fraction/float points and degree 1-2: accepted iff closed, vertex cycle, junction identity; non-curve arguments; (b) every boundary loop of sampled regions under realisations of degree 1-3 built by from_vertices / from_segments / from_ctrlpoints / from_full_curve from two start rotations: pairwise ==, vertices, box, signed length, area, orientation", exhaustive=not quick)
+
+
+def check_C18(tier, rng, rep):
+    """segment calculus is exact"""
+    from . import queries
+    quick = tier == "quick"
+    prng = random.Random(runner.seed() + 18)
+    polys = []
+    for p in range(1, 7):
+        for _ in range(6 if quick else 14):
+            polys.append([prng.randint(-3, 3) for _ in range(p + 1)])
+        polys.append(list(range(-p, p + 1, 2))[: p + 1] if len(list(range(-p, p + 1, 2))) >= p + 1 else list(range(p + 1)))   # monotone: regular segment
+        polys.append(list(range(p + 1)))
+    define = "MCNodes == {<<0,1>>, <<1,4>>, <<1,3>>, <<1,2>>, <<2,3>>, <<3,4>>, <<1,1>>}\nMCPolys == << %s >>\n" % ", ".join("<<%s>>" % ", ".join(map(str, q)) for q in polys)
+    res, path = _const_export("MCB", "Bezier", "CONSTANTS\n  MaxDeg = 6\n  Nodes <- MCNodes\n  Polys <- MCPolys\n", "bezier.json", define=define)
+    rep.add_tlc("Bezier (ThmCaract, ThmPartition, ThmDeriv, ThmSplitLeft, ThmSplitRight as ASSUMEs; value export)", res)
+    if not res.ok:
+        return rep.finish(tier, rule="-")
+    nobl = 6 * 7 * 7 + len(polys) * 7 * 8
+    rep.cov["states"] += nobl
+    rep.cov["transitions"] += nobl
+    jobs = []
+    per = len(polys) // 6
+    for p in range(6):
+        ks = list(range(p * per, (p + 1) * per))
+        for i, kx in enumerate(ks):
+            for ky in (ks[(i + 1) % per], ks[-1]):
+                for nt in ("frac", "int", "float"):
+                    jobs.append((path, kx, ky, {"numtype": nt}))
+    res = runner.pool_map(queries.bezier_case, jobs)
+    rep.add_results("bezier", res)
+    rep.assumptions.append("the subtended-angle oracle for the winding contribution uses atan2 (outside TLA+)")
+    return rep.finish(tier, rule="control polygons with integer coordinates in -3..3, degrees 1..6 (drawn from VERIF_SEED, plus monotone ones): TLC proves the Bernstein identities at 7 rational nodes and exports B(t), B'(t), derivative control points and de Casteljau pieces as exact rationals; the harness replays them through segment(t), eval, derivate(k), split, box, the memoised characteristic matrix (cold and warm), point-on-curve and winding for regular segments, with int, Fraction and float control points", exhaustive=False)
+
+
+def check_C20(tier, rng, rep):
+    """plotting draws exactly the boundary"""
+    from . import queries
+    quick = tier == "quick"
+    for un in (["U2cross", "U3hole"] if quick else U2 + U3):
+        rep.add_tlc("PlaneThm/" + un, models.plane_thm(un, ["ThmLoops", "ThmLoopCorners", "ThmKindShape"]))
+    reals = ["poly-frac", "poly-float", "quad-float", "mixdeg-float", "cubic-float"]
+    jobs = region_jobs(U2 + U3, lambda k: [reals[k % 5]] if quick else reals, rng, per_universe=10 if quick else None)
+    res = runner.pool_map(queries.plot_case, jobs)
+    rep.add_results("plot", res)
+    return rep.finish(tier, rule="(universe, pinch-free region incl. Empty and Whole, realisation of degree 1 / 2 / mixed / 3): ShapePloter.plot on the Agg backend; the patches are read back: number of filled paths = components and outlines = loops of the specification's PlotPlan, per path the code sequence MOVETO (LINETO | CURVE3 x2 | CURVE4 x3)* CLOSEPOLY and the vertices = control points in order, fill colour by boundedness, shape unchanged", exhaustive=not quick)
+
+
 def check_C19(tier, rng, rep):
     """direct composite constructors equal operator results"""
     from . import queries
@@ -721,7 +834,7 @@ def check_C19(tier, rng, rep):
 
 
 CHECKS = {"C01": check_C01, "C02": check_C02, "C03": check_C03, "C04": check_C04, "C05": check_C05, "C06": check_C06,
-          "C07": check_C07, "C08": check_C08, "C09": check_C09, "C10": check_C10, "C11": check_C11, "C12": check_C12, "C13": check_C13, "C14": check_C14, "C15": check_C15, "C19": check_C19}
+          "C07": check_C07, "C08": check_C08, "C09": check_C09, "C10": check_C10, "C11": check_C11, "C12": check_C12, "C13": check_C13, "C14": check_C14, "C15": check_C15, "C16": check_C16, "C17": check_C17, "C18": check_C18, "C19": check_C19, "C20": check_C20}
 
 
 
